@@ -21,6 +21,25 @@ open Gnet.Msq
 theorem msq_fifo (s : State) (h : Reachable s) : s.enqLog = s.deqLog ++ s.absQ :=
   Proofs.Msq.fifo s h
 
+/-- tasks are dequeued in the order their enqueues took effect (in particular the tasks one goroutine enqueues,
+    whose enqueues take effect in program order, are dequeued in that order): the dequeue log is a prefix of
+    the enqueue log -/
+theorem msq_dequeue_order (s : State) (h : Reachable s) : s.deqLog <+: s.enqLog :=
+  ⟨s.absQ, (msq_fifo s h).symm⟩
+
+/-- at most once, and only what was enqueued: with distinct tasks no task is dequeued twice, and every
+    dequeued task was enqueued -/
+theorem msq_at_most_once (s : State) (h : Reachable s) (hd : s.enqLog.Nodup) :
+    s.deqLog.Nodup ∧ ∀ v ∈ s.deqLog, v ∈ s.enqLog := by
+  have hp := msq_dequeue_order s h
+  exact ⟨hp.sublist.nodup hd, fun v hv => hp.subset hv⟩
+
+/-- exactly once when drained: with an empty queue everything enqueued has been dequeued, in order -/
+theorem msq_drained_exactly_once (s : State) (h : Reachable s) (he : s.absQ = []) : s.deqLog = s.enqLog := by
+  have := msq_fifo s h
+  simp [he] at this
+  exact this.symm
+
 /-- the abstract queue is the concrete linked structure behind the head node -/
 theorem msq_abs_is_chain (s : State) (h : Reachable s) :
     s.absQ = ((chain s).drop (posOf s s.head + 1)).map (valueOf s) :=
